@@ -6,7 +6,10 @@
 // coq/Feedback.v is the model that must print the same lines.
 #include "hgv_io.h"
 
+#include <hgraph/lib/std/std_operators.h>
 #include <hgraph/lib/testing/runtime_support.h>
+#include <hgraph/runtime/executor.h>
+#include <hgraph/types/static_node.h>
 #include <hgraph/runtime/feedback_node.h>
 #include <hgraph/runtime/lifecycle_observer.h>
 #include <hgraph/runtime/node_scheduler.h>
@@ -15,6 +18,7 @@
 #include <hgraph/types/metadata/type_registry.h>
 #include <hgraph/types/value/value.h>
 
+#include <algorithm>
 #include <map>
 #include <optional>
 #include <stdexcept>
@@ -166,8 +170,234 @@ namespace
         }
     };
 
+
+    // ===================================================================================
+    // Collection-shaped feedback through the wiring layer (case line "7 kind passive structural"):
+    //   kind 1  TSS<Int> delay line:       scripted set source -> feedback<TSS<Int>>; probes on both sides
+    //   kind 2  TSD<Int,TS<Int>> delay line: scripted dict source -> feedback<TSD<..>>; probes on both sides
+    //   kind 3  TSD loop: grow(x, [passive](fb())) adds one key per evaluation, fb(grow); the reader's
+    //           feedback input has activity Structural (structural=1) or the default (0)
+    // Script lines "8 t op key value" (absolute time t): kind 1: op 1 add key, 2 remove key;
+    // kind 2: op 1 set key value, 2 erase key; kind 3: op 1 x.set(value).
+    // These go through stdlib::feedback<>, i.e. the real make_feedback_*_node over the collection
+    // schemas, the real ranking, and the Passive argument tag (NodeBuilder::with_passive_inputs).
+    struct WStep { std::int64_t t, op, key, value; };
+    std::vector<WStep> g_wsteps;
+    hgv::Out          *g_wout{nullptr};
+
+    template <typename F>
+    void apply_steps(NodeScheduler &sched, State<Int> &index, DateTime now, F &&f)
+    {
+        auto i = static_cast<std::size_t>(index.get());
+        while (i < g_wsteps.size() && g_wsteps[i].t == us(now)) { f(g_wsteps[i]); ++i; }
+        index.set(static_cast<Int>(i));
+        if (i < g_wsteps.size()) { sched.schedule(dt(g_wsteps[i].t)); }
+    }
+
+    struct WSetSource
+    {
+        static constexpr auto name              = "hgv_set_source";
+        static constexpr bool schedule_on_start = true;
+        static void start(State<Int> index) { index.set(Int{0}); }
+        static void eval(NodeScheduler sched, State<Int> index, DateTime now, Out<TSS<Int>> out)
+        {
+            apply_steps(sched, index, now, [&](const WStep &st) {
+                if (st.op == 1) { (void)out.add(Int{st.key}); }
+                else if (st.op == 2) { (void)out.remove(Int{st.key}); }
+            });
+        }
+    };
+
+    struct WDictSource
+    {
+        static constexpr auto name              = "hgv_dict_source";
+        static constexpr bool schedule_on_start = true;
+        static void start(State<Int> index) { index.set(Int{0}); }
+        static void eval(NodeScheduler sched, State<Int> index, DateTime now, Out<TSD<Int, TS<Int>>> out)
+        {
+            apply_steps(sched, index, now, [&](const WStep &st) {
+                if (st.op == 1) { out.set(Int{st.key}, Int{st.value}); }
+                else if (st.op == 2) { (void)out.erase(Int{st.key}); }
+            });
+        }
+    };
+
+    struct WIntSource
+    {
+        static constexpr auto name              = "hgv_int_source";
+        static constexpr bool schedule_on_start = true;
+        static void start(State<Int> index) { index.set(Int{0}); }
+        static void eval(NodeScheduler sched, State<Int> index, DateTime now, Out<TS<Int>> out)
+        {
+            apply_steps(sched, index, now, [&](const WStep &st) {
+                if (st.op == 1)
+                {
+                    out.set(Int{st.value});
+                    g_wout->line({33, us(now), st.value});
+                }
+            });
+        }
+    };
+
+    struct WSetProbe
+    {
+        static constexpr auto name = "hgv_set_probe";
+        static void eval(In<"s", TSS<Int>> s, Scalar<"id", Int> id, DateTime now)
+        {
+            std::vector<std::int64_t> added, removed, all;
+            for (Int a : s.added()) { added.push_back(static_cast<std::int64_t>(a)); }
+            for (Int r : s.removed()) { removed.push_back(static_cast<std::int64_t>(r)); }
+            for (Int v : s.values()) { all.push_back(static_cast<std::int64_t>(v)); }
+            std::sort(added.begin(), added.end());
+            std::sort(removed.begin(), removed.end());
+            std::sort(all.begin(), all.end());
+            Line l{30, static_cast<std::int64_t>(id.value()), us(now)};
+            l.push_back((std::int64_t)added.size());
+            l.insert(l.end(), added.begin(), added.end());
+            l.push_back((std::int64_t)removed.size());
+            l.insert(l.end(), removed.begin(), removed.end());
+            l.push_back((std::int64_t)all.size());
+            l.insert(l.end(), all.begin(), all.end());
+            g_wout->line(l);
+        }
+    };
+
+    template <typename D>
+    void dict_probe_line(std::int64_t id, const D &d, DateTime now)
+    {
+        std::vector<std::pair<std::int64_t, std::int64_t>> mod, all;
+        std::vector<std::int64_t>                          rem;
+        for (auto [k, v] : d.modified_items())
+        {
+            mod.emplace_back(static_cast<std::int64_t>(k.template checked_as<Int>()), v.valid() ? static_cast<std::int64_t>(v.value()) : -999);
+        }
+        for (auto [k, v] : d.removed_items()) { rem.push_back(static_cast<std::int64_t>(k.template checked_as<Int>())); }
+        for (auto [k, v] : d.items())
+        {
+            all.emplace_back(static_cast<std::int64_t>(k.template checked_as<Int>()), v.valid() ? static_cast<std::int64_t>(v.value()) : -999);
+        }
+        std::sort(mod.begin(), mod.end());
+        std::sort(rem.begin(), rem.end());
+        std::sort(all.begin(), all.end());
+        Line l{31, id, us(now)};
+        l.push_back((std::int64_t)mod.size());
+        for (auto &[k, v] : mod) { l.push_back(k); l.push_back(v); }
+        l.push_back((std::int64_t)rem.size());
+        l.insert(l.end(), rem.begin(), rem.end());
+        l.push_back((std::int64_t)all.size());
+        for (auto &[k, v] : all) { l.push_back(k); l.push_back(v); }
+        g_wout->line(l);
+    }
+
+    struct WDictProbe
+    {
+        static constexpr auto name = "hgv_dict_probe";
+        static void eval(In<"d", TSD<Int, TS<Int>>> d, Scalar<"id", Int> id, DateTime now)
+        {
+            dict_probe_line(static_cast<std::int64_t>(id.value()), d, now);
+        }
+    };
+
+    // adds one new key per evaluation, derived from what has already come back through the feedback
+    struct WGrowStructural
+    {
+        static constexpr auto name = "hgv_grow_structural";
+        static void eval(In<"x", TS<Int>> x,
+                         In<"seen", TSD<Int, TS<Int>>, InputActivity::Structural, InputValidity::Unchecked> seen,
+                         DateTime now, Out<TSD<Int, TS<Int>>> out)
+        {
+            g_wout->line({32, us(now)});
+            const Int next_key = static_cast<Int>(seen.valid() ? seen.size() : 0) + 1;
+            out.set(next_key, x.value());
+        }
+    };
+
+    struct WGrowActive
+    {
+        static constexpr auto name = "hgv_grow_active";
+        static void eval(In<"x", TS<Int>> x,
+                         In<"seen", TSD<Int, TS<Int>>, InputActivity::Active, InputValidity::Unchecked> seen,
+                         DateTime now, Out<TSD<Int, TS<Int>>> out)
+        {
+            g_wout->line({32, us(now)});
+            const Int next_key = static_cast<Int>(seen.valid() ? seen.size() : 0) + 1;
+            out.set(next_key, x.value());
+        }
+    };
+
+    struct CycleObs : LifecycleObserver
+    {
+        hgv::Out *out;
+        explicit CycleObs(hgv::Out *o) : out(o) {}
+        void on_before_graph_evaluation(const GraphView &g) override { out->line({10, us(g.evaluation_time())}); }
+    };
+
+    void run_wired(const hgv::Case &c, hgv::Out &out)
+    {
+        std::int64_t start = 1, end = 10, kind = 1, passive_flag = 0, structural = 1;
+        g_wsteps.clear();
+        g_wout = &out;
+        for (const Line &l : c)
+        {
+            if (l[0] == 1) { start = l[1]; end = l[2]; }
+            else if (l[0] == 7) { kind = l[1]; passive_flag = l.size() > 2 ? l[2] : 0; structural = l.size() > 3 ? l[3] : 1; }
+            else if (l[0] == 8) { g_wsteps.push_back({l[1], l[2], l[3], l.size() > 4 ? l[4] : 0}); }
+        }
+        std::stable_sort(g_wsteps.begin(), g_wsteps.end(), [](const WStep &a, const WStep &b) { return a.t < b.t; });
+        try
+        {
+            Wiring w;
+            if (kind == 1)
+            {
+                auto s  = wire<WSetSource>(w);
+                auto fb = stdlib::feedback<TSS<Int>>(w);
+                fb(s);
+                wire<WSetProbe>(w, s, Int{1});
+                wire<WSetProbe>(w, fb(), Int{2});
+            }
+            else if (kind == 2)
+            {
+                auto s  = wire<WDictSource>(w);
+                auto fb = stdlib::feedback<TSD<Int, TS<Int>>>(w);
+                fb(s);
+                wire<WDictProbe>(w, s, Int{1});
+                wire<WDictProbe>(w, fb(), Int{2});
+            }
+            else
+            {
+                auto x  = wire<WIntSource>(w);
+                auto fb = stdlib::feedback<TSD<Int, TS<Int>>>(w);
+                if (structural != 0)
+                {
+                    auto grown = passive_flag != 0 ? wire<WGrowStructural>(w, x, passive(fb())) : wire<WGrowStructural>(w, x, fb());
+                    fb(grown);
+                    wire<WDictProbe>(w, grown, Int{1});
+                }
+                else
+                {
+                    auto grown = passive_flag != 0 ? wire<WGrowActive>(w, x, passive(fb())) : wire<WGrowActive>(w, x, fb());
+                    fb(grown);
+                    wire<WDictProbe>(w, grown, Int{1});
+                }
+                wire<WDictProbe>(w, fb(), Int{2});
+            }
+            GraphBuilder         gb = std::move(w).finish();
+            CycleObs             obs{&out};
+            GraphExecutorBuilder eb;
+            eb.graph_builder(std::move(gb)).start_time(dt(start)).end_time(dt(end)).add_lifecycle_observer(&obs);
+            GraphExecutorValue executor = eb.make_executor();
+            executor.view().run();
+        }
+        catch (const std::exception &e)
+        {
+            out.line({19, 1});
+            std::fprintf(stderr, "wired error: %s\n", e.what());
+        }
+    }
+
     void run_case(const hgv::Case &c, hgv::Out &out)
     {
+        for (const Line &l : c) { if (l[0] == 7) { run_wired(c, out); return; } }
         auto       &registry = TypeRegistry::instance();
         const auto *int_meta = registry.register_scalar<std::int64_t>("int64");
         const auto *ts_int   = registry.ts(int_meta);
